@@ -4,7 +4,7 @@ import random
 from .. import refcal as R
 from ..batch import run_lines, BatchError
 from ..core import Sub
-from .common import Viol, slice_range
+from .common import Viol, slice_range, TAIL0
 from . import addsweep as A
 
 FLAVOURS = ("san",)
@@ -80,12 +80,27 @@ def diffb(ctx, shard, nshards):
     days, _ = A.pick_days(ctx, shard, nshards, None if ctx.thorough else 150, 100, "c07d")
     rnd = random.Random(ctx.sub_seed("c07d", shard))
     offs = list(range(-45, 46))
+    DREPS = ["ymd"] * 4 + ["ywd", "yd", "ymcw", "ldn", "mdn", "bizda"]
     for a in days:
         bs = [a + o for o in offs if R.NMIN <= a + o <= R.NMAX]
         bs += [rnd.randrange(R.NMIN, R.NMAX + 1) for _ in range(6)]
-        lines = [R.f_ymd(b) for b in bs]
+        # the operands in every calendar, not only ymd: the count must not depend on it
+        rep = rnd.choice(DREPS)
+        if rep == "bizda":
+            if not R.is_bday(a):
+                rep = "ymd"
+            else:
+                bs = [b for b in bs if R.is_bday(b)]
+        if rep in ("ldn", "mdn"):
+            # day numbers in the last 606 days of the range are C01's recorded finding
+            if a >= TAIL0:
+                rep = "ymd"
+            else:
+                bs = [b for b in bs if b < TAIL0]
+        args0, mk, _ = A.REPS[rep]
+        lines = [mk(b) for b in bs]
         try:
-            out, _ = run_lines(ctx.build, "ddiff", [R.f_ymd(a), "-f", "%db"], lines)
+            out, _ = run_lines(ctx.build, "ddiff", args0 + [mk(a), "-f", "%db"], lines)
         except BatchError as e:
             V.add("batch:ddiff", {"a": a, "kind": "batch"}, detail=str(e), actual=e.result.brief())
             continue
@@ -93,9 +108,9 @@ def diffb(ctx, shard, nshards):
             x = "%db" % R.bdays_between(a, b)
             if o != x:
                 wa, wb = R.wday(a), R.wday(b)
-                tag = "ddiff:%s>%s:%s" % ("we" if wa >= 6 else "wd", "we" if wb >= 6 else "wd",
-                                          "fwd" if b >= a else "back")
-                V.add(tag, {"a": a, "b": b, "kind": "diff"}, expected=x, actual=o)
+                tag = "ddiff:%s%s>%s:%s" % ("" if rep == "ymd" else rep + ":", "we" if wa >= 6 else "wd", "we" if wb >= 6 else "wd",
+                                            "fwd" if b >= a else "back")
+                V.add(tag, {"a": a, "b": b, "kind": "diff", "rep": rep}, expected=x, actual=o)
             if R.wday(a) >= 6 or R.wday(b) >= 6 or abs(b - a) > 7:
                 sub.nontrivial_count += 1
         sub.evaluations += len(bs)
@@ -150,9 +165,10 @@ def replay(ctx, subname, case):
         return A.replay_one(ctx, case, x)
     if k == "diff":
         a, b = case["a"], case["b"]
-        out, _ = run_lines(ctx.build, "ddiff", [R.f_ymd(a), "-f", "%db"], [R.f_ymd(b)])
+        args0, mk, _ = A.REPS[case.get("rep", "ymd")]
+        out, _ = run_lines(ctx.build, "ddiff", args0 + [mk(a), "-f", "%db"], [mk(b)])
         x = "%db" % R.bdays_between(a, b)
-        return None if out[0] == x else {"a": R.f_ymd(a), "b": R.f_ymd(b), "expected": x, "actual": out[0]}
+        return None if out[0] == x else {"a": mk(a), "b": mk(b), "expected": x, "actual": out[0]}
     if k == "denote":
         i = case["in"]
         y, m, bd = int(i[:4]), int(i[5:7]), int(i[8:10])
